@@ -946,6 +946,32 @@ func init() {
 					hist(append([]N{}, b...), []N{stmt(walks[0]())}, []N{stmt(walks[2]())}, []N{setAttr("u", "aa", iv(7)), stmt(walks[0]())})
 				}
 			}
+			// a template piece is fixed when its hole ends: a later block that changes the container an earlier hole printed
+			// does not reach back into the text assembled so far
+			{
+				holeE := func(e N) N { return N{"k": "hole", "pct": false, "body": []N{stmt(e)}} }
+				holeB := func(body ...N) N { return N{"k": "hole", "pct": true, "body": body} }
+				lit := func(c string) N { return N{"k": "lit", "c": chars(c)} }
+				tmplN := func(parts ...N) N { return N{"k": "tmpl", "q": 3, "pp": false, "parts": parts} }
+				setIdx := func(v string, i int, e N) N {
+					return stmt(N{"k": "assignIdx", "o": vr(v), "i": iv(i), "e": e, "pp": false})
+				}
+				for _, t := range []N{
+					tmplN(holeE(vr("u")), holeB(setIdx("u", 0, iv(9))), holeE(vr("u"))),
+					tmplN(lit("a"), holeE(vr("u")), lit("b"), holeB(stmt(mcall(vr("u"), "push", iv(4)))), holeE(vr("u")), holeB(stmt(mcall(vr("u"), "pop")), stmt(mcall(vr("u"), "pop"))), holeE(vr("u"))),
+					tmplN(holeE(arr(vr("u"), iv(0))), holeB(setIdx("u", 1, arr(iv(7)))), holeE(mcall(vr("u"), "len")), holeE(vr("u"))),
+					tmplN(holeE(vr("u")), holeE(tmplN(holeB(setIdx("u", 0, iv(5))), holeE(vr("u")))), holeE(vr("u"))),
+				} {
+					hist([]N{asg("u", arr(iv(1), iv(2), iv(3))), stmt(t)})
+					hist([]N{asg("u", arr(iv(1), iv(2), iv(3))), asg("w", t), stmt(arr(vr("w"), vr("u")))})
+				}
+				for _, t := range []N{
+					tmplN(holeE(vr("u")), holeB(setAttr("u", "a", iv(5))), holeE(vr("u"))),
+					tmplN(holeE(vr("u")), holeB(setAttr("u", "b", arr(iv(1)))), lit("-"), holeE(vr("u")), holeB(setAttr("u", "a", null)), holeE(vr("u"))),
+				} {
+					hist([]N{asg("u", dict1("a", iv(1))), stmt(t)})
+				}
+			}
 			// prototype chains
 			proto := func(v string, e N) N { return setAttr(v, "__proto__", e) }
 			reads := func(v string) N {
